@@ -10,6 +10,7 @@ newline, NUL, non-ASCII, \\xff; text, bytes and regex literals of length <= 3 ov
 from __future__ import annotations
 
 import itertools
+import zlib
 import os
 import random
 import sys
@@ -51,7 +52,8 @@ def literal_specs(tier):
     for n in range(1, max_len + 1):
         for combo in itertools.product(ALPHABET, repeat=n):
             s = "".join(combo)
-            if n == max_len and tier == "quick" and (hash(s) % 3):
+            tricky = "'" in s and '"' in s          # both quote characters: always kept
+            if n == max_len and tier == "quick" and (zlib.crc32(s.encode()) % 3) and not tricky:
                 continue
             out[f"lit_str_{k}"] = ("str", s)
             if all(ord(c) < 256 for c in s):
